@@ -112,6 +112,8 @@ pub struct World {
     pub receivers: HashMap<String, mpsc::UnboundedSender<RCmd>>,
     pub requests: HashMap<String, Request>,
     pub cancels: HashMap<String, oneshot::Sender<()>>,
+    /// pending call ids per handle key, so that dropping a handle first cancels its calls
+    pub calls_of: HashMap<String, Vec<String>>,
     /// Credit probes per port handle (hook `verif`): sender pool, receiver (used, limit).
     pub probes: std::collections::BTreeMap<String, (Box<dyn Fn() -> Option<u32>>, Box<dyn Fn() -> Option<(u32, u32)>>)>,
     pub pending: Pending,
@@ -491,6 +493,7 @@ impl World {
             receivers: HashMap::new(),
             requests: HashMap::new(),
             cancels: HashMap::new(),
+            calls_of: HashMap::new(),
             probes: Default::default(),
             pending: Arc::new(Mutex::new(BTreeSet::new())),
             produced_tx,
@@ -530,6 +533,20 @@ impl World {
                 Produced::Req { name, side, req } => {
                     self.requests.insert(format!("{}@{}", name, side_name(side)), req);
                 }
+            }
+        }
+    }
+
+    fn begin_on(&mut self, key: &str, k: &str) -> oneshot::Receiver<()> {
+        self.calls_of.entry(key.to_string()).or_default().push(k.to_string());
+        self.begin(k)
+    }
+
+    /// Cancel every pending call issued on a handle (its actor must be idle to see `Drop`).
+    fn cancel_calls_of(&mut self, key: &str) {
+        for k in self.calls_of.remove(key).unwrap_or_default() {
+            if let Some(c) = self.cancels.remove(&k) {
+                let _ = c.send(());
             }
         }
     }
@@ -856,7 +873,7 @@ impl World {
                     tr(format!("ret {k} err no-such-handle"));
                     return true;
                 };
-                let cancel = self.begin(&k);
+                let cancel = self.begin_on(&format!("{key}:tx"), &k);
                 let cmd = match t[0] {
                     "send" => SCmd::Send { k, data: Bytes::from(unhex(t[4]).expect("hex")), cancel },
                     "trysend" => SCmd::TrySend { k, data: Bytes::from(unhex(t[4]).expect("hex")) },
@@ -888,6 +905,57 @@ impl World {
                 };
                 let _ = s.send(cmd);
             }
+            "labelall" => {
+                // every sender sends its own (local, remote) port numbers; every receiver receives once
+                let k = t[1].to_string();
+                let mut keys: Vec<String> = self.senders.keys().cloned().collect();
+                keys.sort();
+                for key in keys {
+                    let (name, side) = key.split_once('@').unwrap();
+                    let (l, r) = self.port_nums.get(&key).copied().unwrap_or((0, 0));
+                    let data = format!("L:{l}:{r}").into_bytes();
+                    let id = format!("{k}.s.{name}.{side}");
+                    tr(format!("opd send {id} {side} {name} {}", hex(&data)));
+                    let cancel = self.begin_on(&format!("{key}:tx"), &id);
+                    let _ = self.senders[&key].send(SCmd::Send { k: id, data: Bytes::from(data), cancel });
+                }
+                let mut keys: Vec<String> = self.receivers.keys().cloned().collect();
+                keys.sort();
+                for key in keys {
+                    let (name, side) = key.split_once('@').unwrap();
+                    let id = format!("{k}.r.{name}.{side}");
+                    tr(format!("opd recv {id} {side} {name}"));
+                    let cancel = self.begin_on(&format!("{key}:rx"), &id);
+                    let _ = self.receivers[&key].send(RCmd::Recv { k: id, cancel });
+                }
+            }
+            "alloccheck" => {
+                // how many ports can still be allocated on this side
+                let side = side_idx(t[1]);
+                match &self.clients[side] {
+                    Some(c) => {
+                        let alloc = c.port_allocator();
+                        let mut held = Vec::new();
+                        while let Some(p) = alloc.try_allocate() {
+                            held.push(p);
+                            if held.len() > 100_000 {
+                                break;
+                            }
+                        }
+                        tr(format!(
+                            "alloc {} free={} max={}{}",
+                            t[1],
+                            held.len(),
+                            self.cfgs[side].max_ports,
+                            if t.get(2) == Some(&"final") { " final" } else { "" }
+                        ));
+                    }
+                    None => tr(format!("alloc {} free=unknown", t[1])),
+                }
+            }
+            "tasks" => {
+                tr(format!("tasks {}", tokio::runtime::Handle::current().metrics().num_alive_tasks()));
+            }
             "flushstep" => {
                 // deliver what is queued on a wire one item at a time, settling after each
                 let w = side_idx(t[1]);
@@ -908,7 +976,7 @@ impl World {
                     tr(format!("ret {k} err no-such-handle"));
                     return true;
                 };
-                let cancel = self.begin(&k);
+                let cancel = self.begin_on(&format!("{key}:rx"), &k);
                 let _ = r.send(RCmd::RecvMsg { k, side, name, cancel });
             }
             "recv" | "recvany" | "recvchunk" | "close" | "setmaxdata" => {
@@ -921,7 +989,7 @@ impl World {
                     let _ = r.send(RCmd::SetMaxData { n: t[4].parse().unwrap() });
                     return true;
                 }
-                let cancel = self.begin(&k);
+                let cancel = self.begin_on(&format!("{key}:rx"), &k);
                 let cmd = match t[0] {
                     "recv" => RCmd::Recv { k, cancel },
                     "recvany" => RCmd::RecvAny { k, cancel },
@@ -940,11 +1008,13 @@ impl World {
                 let key = format!("{}@{}", t[2], t[1]);
                 match t[3] {
                     "tx" => {
+                        self.cancel_calls_of(&format!("{key}:tx"));
                         if let Some(s) = self.senders.remove(&key) {
                             let _ = s.send(SCmd::Drop);
                         }
                     }
                     _ => {
+                        self.cancel_calls_of(&format!("{key}:rx"));
                         if let Some(r) = self.receivers.remove(&key) {
                             let _ = r.send(RCmd::Drop);
                         }
@@ -964,9 +1034,36 @@ impl World {
                     c.terminate();
                 }
             }
+            "dropports" => {
+                // drop every request and port handle that the script did not drop by name
+                self.requests.clear();
+                let mut keys: Vec<String> = self.calls_of.keys().cloned().collect();
+                keys.sort();
+                for key in keys {
+                    self.cancel_calls_of(&key);
+                }
+                for (_, s) in self.senders.drain() {
+                    let _ = s.send(SCmd::Drop);
+                }
+                for (_, r) in self.receivers.drain() {
+                    let _ = r.send(RCmd::Drop);
+                }
+            }
             "dropall" => {
                 // drop every API object of both sides (requests first, then ports, clients, listeners)
                 self.requests.clear();
+                let mut keys: Vec<String> = self.calls_of.keys().cloned().collect();
+                keys.sort();
+                for key in keys {
+                    self.cancel_calls_of(&key);
+                }
+                let mut pend: Vec<String> = self.cancels.keys().cloned().collect();
+                pend.sort();
+                for k in pend {
+                    if let Some(c) = self.cancels.remove(&k) {
+                        let _ = c.send(());
+                    }
+                }
                 for (_, s) in self.senders.drain() {
                     let _ = s.send(SCmd::Drop);
                 }
